@@ -125,9 +125,21 @@ Example C36_ex_run_hooks :
   = Ok ([HStreamT [10; 20]%N None; HStreamN [2]%N None], [([], false); ([(0, 1)]%N, true)], []).
 Proof. reflexivity. Qed.
 
-(* The modelled code panics when a PassthroughSingletonHook with nothing pending shares a tick
-   with a hook that can release ("No decision to release" / usize underflow); the tick-level
-   statements above are conditional on an [Ok] result, this is the excluded behaviour: *)
+(* FINDING (known_findings.d/C36.txt, key run_hooks/passthrough-empty-with-releasable-sibling).
+   The full tick-level statement would be: on idle hooks with [can_run], run_hooks never panics
+   (and then, by C36_run_hooks_releases_new, releases something new):
+     forall hs ds, forallb idle hs = true -> can_run hs = true -> forall c, run_hooks hs ds <> Panic c.
+   It is FALSE of the faithful model: a PassthroughSingletonHook with nothing pending is ready
+   (trait default), takes no decision, and run_hooks panics with "No decision to release" or a
+   usize underflow, depending on the hook order.  Replayed on the real run_hooks (corpus/C36)
+   and end-to-end on a Hydro program (corpus/C36/e2e_fold_snapshot_with_sibling_batch.rs.txt). *)
+Theorem C36_run_hooks_no_panic_refuted :
+  exists hs ds c, forallb idle hs = true /\ can_run hs = true /\ run_hooks hs ds = Panic c.
+Proof.
+  exists [HStreamT [10]%N None; HPass [] None], [1], 5. repeat split; reflexivity.
+Qed.
+Print Assumptions C36_run_hooks_no_panic_refuted.
+
 Example C36_run_hooks_passthrough_empty :
   can_run [HPass [] None; HStreamT [10]%N None] = true
   /\ run_hooks [HPass [] None; HStreamT [10]%N None] [1] = Panic 1
